@@ -103,6 +103,12 @@ func runOne(s src) (res result) {
 			if ex, ok := err.(*goja.Exception); ok {
 				res.Ty = "throw"
 				res.V = ex.Value().ToInteger()
+				// (an uncaught TypeError raised by a built-in: the MiniJS programs name it 9999, as their E() does)
+				if o, ok := ex.Value().(*goja.Object); ok && o.ClassName() == "Error" {
+					if te, _ := vm.RunString("TypeError"); te != nil && vm.InstanceOf(ex.Value(), te.(*goja.Object)) {
+						res.V = 9999
+					}
+				}
 			} else if !fatal(vm, &res, err) {
 				res.Err = err.Error()
 			}
